@@ -73,7 +73,7 @@ def main():
         audit = dict(obligations=a0["obligations"], discharged=0, theorems=a0["theorems"], problems=[])
     if tier == "thorough" and ok and not os.environ.get("VERIF_SKIP_COQCHK"):
         r = core.run(["coqchk", "-silent", "-o", "-Q", "theories", "XcpModel", "-Q", "proofs", "XcpProofs",
-                      "-Q", "props", "XcpProps", "XcpProps." + prop], cwd=core.COQ, timeout=3000)
+                      "-Q", "props", "XcpProps", "-Q", "pins", "XcpPins", "XcpProps." + prop], cwd=core.COQ, timeout=3000)
         if r.returncode != 0:
             proof_problems.append("coqchk failed: " + r.stdout[-1000:])
         else:
